@@ -5,6 +5,8 @@ TP = "traces_parser.py"
 B = "trace_handlers/bsd.py"
 PF = "trace_handlers/perf.py"
 MUTANTS = [
+    F("C05", "per-thread tables pre-created with one shared inner dict", "traces_parser.py",
+      "        self.on_going_events = {}\n", "        self.on_going_events = dict.fromkeys(threads_pids, {})\n", "R5"),
     F("C05", "data record back in a parser-wide slot", TR,
       "    parser.last_data_exec[events[0].tid] = event\n    return event",
       "    parser.last_data_exec = event\n    return event", None,
